@@ -332,6 +332,15 @@ class CasXmiDeserializer:
                 if getattr(fs, FEATURE_BASE_NAME_SOFA, None) is sofa:
                     fs.sofa = view.get_sofa()
 
+        if not any(sofa.sofaID == "_InitialView" for sofa in sofas.values()):
+            # The document does not mention the initial view, which every CAS has: its sofa must not reuse an
+            # xmi:id or a sofaNum of the document
+            self._max_xmi_id += 1
+            self._max_sofa_num += 1
+            initial_sofa = cas.get_view("_InitialView").get_sofa()
+            initial_sofa.xmiID = self._max_xmi_id
+            initial_sofa.sofaNum = self._max_sofa_num
+
         cas._xmi_id_generator = IdGenerator(self._max_xmi_id + 1)
         cas._sofa_num_generator = IdGenerator(self._max_sofa_num + 1)
 
